@@ -776,8 +776,13 @@ class _Simu(_IObserver, _params.Updatable, ABC):
             if value != previous:
                 # a loaded simulation refers to its meshes by paths relative to the folder it was saved in:
                 # keep them reachable from anywhere
+                # (absolute paths: `previous` may have been given relative to the working directory)
                 self.__listMesh = [
-                    Folder.Join(previous, mesh) if isinstance(mesh, str) else mesh
+                    (
+                        Folder.os.path.abspath(Folder.Join(previous, mesh))
+                        if isinstance(mesh, str)
+                        else mesh
+                    )
                     for mesh in listMesh
                 ]
         self.__folder = value
